@@ -301,6 +301,179 @@ def check_ack(eng, run):
     run.floor("C10.ack callbacks", n, 3)
 
 
+# ------------------------------------------------------------------------------------------ C10.parser
+class ParserState(RuleAnalysis):
+    """The half-fed packet parser (a generator holding every byte of the incomplete packet) kept in consumer state between
+    receives.  fact = (state, alias): state 'instate' (stored in the attribute), 'taken' (attribute reset, generator only in a
+    local), 'none' (known absent), 'done' (finished / died in send())."""
+    tokens = ("StopIteration", "Exception")
+    precise_raise_tokens = True
+
+    def __init__(self, engine, attr):
+        super().__init__(engine)
+        self.attr = attr
+        self.dropped = []
+
+    def initial(self, fn):
+        return [("instate", None)]
+
+    def _drives(self, node, alias):
+        c = node if isinstance(node, ast.Call) else None
+        if c is None or alias is None:
+            return False
+        if isinstance(c.func, ast.Attribute) and dotted(c.func.value) == alias and c.func.attr in ("send", "throw", "close", "__next__"):
+            return True
+        return isinstance(c.func, ast.Name) and c.func.id == "next" and c.args and dotted(c.args[0]) == alias
+
+    def may_raise(self, node, fact):
+        if isinstance(node, ast.Call):
+            return ["StopIteration", "Exception"] if self._drives(node, fact[1]) else ["Exception"]
+        return []
+
+    def raise_fact(self, node, fact, token):
+        if self._drives(node, fact[1]) and fact[0] in ("taken", "instate"):
+            return [("done" if fact[0] == "taken" else fact[0], fact[1])]
+        return [fact]
+
+    def _assign(self, target, value, fact):
+        state, alias = fact
+        t, v = dotted(target), dotted(value) if value is not None else None
+        if t == self.attr:
+            if isinstance(value, ast.Constant) and value.value is None:
+                if state == "instate":
+                    if alias is None:
+                        self.dropped.append((target, "the attribute is reset while no local refers to the parser"))
+                        return ("none", alias)
+                    return ("taken", alias)
+                return (state if state != "instate" else "none", alias)
+            return ("instate", alias if v != alias else alias)
+        if isinstance(target, ast.Name):
+            if v == self.attr:
+                return (state, target.id)
+            if target.id == alias and state == "taken":
+                self.dropped.append((target, f"`{alias}` is re-bound while it is the only reference to the parser"))
+                return ("none", None)
+            if target.id == alias:
+                return (state, None)
+        return fact
+
+    def transfer(self, node, fact):
+        if isinstance(node, ast.NamedExpr):
+            return [self._assign(node.target, node.value, fact)]
+        if isinstance(node, (ast.Assign, ast.AnnAssign)) and node.value is not None:
+            tgs = node.targets if isinstance(node, ast.Assign) else [node.target]
+            for tg in tgs:
+                if isinstance(tg, ast.Tuple) and isinstance(node.value, ast.Tuple) and len(tg.elts) == len(node.value.elts):
+                    # right-hand side is evaluated first: bind locals before resetting the attribute
+                    pairs = sorted(zip(tg.elts, node.value.elts), key=lambda p: 0 if isinstance(p[0], ast.Name) else 1)
+                    for a, b in pairs:
+                        fact = self._assign(a, b, fact)
+                else:
+                    fact = self._assign(tg, node.value, fact)
+            return [fact]
+        return [fact]
+
+    def branch(self, test, fact):
+        state, alias = fact
+        t, neg = test, False
+        while isinstance(t, ast.UnaryOp) and isinstance(t.op, ast.Not):
+            t, neg = t.operand, not neg
+        subj = None
+        none_when_true = None
+        if isinstance(t, ast.Compare) and len(t.ops) == 1 and isinstance(t.comparators[0], ast.Constant) and t.comparators[0].value is None:
+            left = t.left.target if isinstance(t.left, ast.NamedExpr) else t.left
+            subj = dotted(left)
+            none_when_true = isinstance(t.ops[0], ast.Is)
+        elif isinstance(t, (ast.Name, ast.Attribute)):
+            subj, none_when_true = dotted(t), False
+        if subj is not None and subj in (alias, self.attr) and state in ("instate", "taken") and (subj != self.attr or state == "instate"):
+            absent, present = [("none", alias)], [fact]
+            tr, fl = (absent, present) if none_when_true else (present, absent)
+            return (fl, tr) if neg else (tr, fl)
+        return [fact], [fact]
+
+
+def check_parser(eng, run):
+    """a receive that ends without a packet (StopIteration: need more data, timeout, cancellation upstream) keeps the half-fed
+    parser: it is never taken out of the consumer state and then forgotten"""
+    n = 0
+    for cname in ("StreamDataConsumer", "BufferedStreamDataConsumer"):
+        ci = eng.db.module("lowlevel._stream").classes.get(cname)
+        fn = ci.methods.get("next") if ci else None
+        if fn is None:
+            raise AnalysisError(f"anchor vanished: {cname}.next")
+        # the attribute holding the generator: assigned None in __init__ and assigned from a local elsewhere, driven with .send()
+        sent = {dotted(c.func.value) for c in own_nodes(fn.node) if isinstance(c, ast.Call) and isinstance(c.func, ast.Attribute) and c.func.attr == "send"}
+        attrs = {dotted(t) for a in own_nodes(fn.node) if isinstance(a, ast.Assign) for t in a.targets if isinstance(t, ast.Attribute) and dotted(a.value) in sent}
+        attrs |= {dotted(a.value) for a in own_nodes(fn.node) if isinstance(a, (ast.NamedExpr, ast.Assign)) and isinstance(a.value, ast.Attribute)
+                  and any(dotted(t) in sent for t in ([a.target] if isinstance(a, ast.NamedExpr) else a.targets))}
+        attrs |= {dotted(v) for a in own_nodes(fn.node) if isinstance(a, ast.Assign) and isinstance(a.value, ast.Tuple) for t in a.targets if isinstance(t, ast.Tuple)
+                  for x, v in zip(t.elts, a.value.elts) if dotted(x) in sent and isinstance(v, ast.Attribute)}
+        if len(attrs) != 1:
+            raise AnalysisError(f"anchor vanished: parser attribute of {cname}.next ({sorted(attrs)})")
+        attr = next(iter(attrs))
+        an = ParserState(eng, attr)
+        out = Interp(an, fn).run()
+        n += 1
+        bad = []
+        for kind, tok, fmap in [("return", None, out.ret)] + [("raise", t, m) for t, m in out.exc.items()]:
+            for fact, tr in fmap.items():
+                if fact[0] == "taken":
+                    bad.append((f"{kind}{'[' + tok + ']' if tok else ''}", tr))
+        for label, tr in bad[:1]:
+            run.finding("C10.parser", fn, _line_stmt(fn, tr[-1]) if tr else fn.node, f"exit {label} after the half-fed parser was taken out of `{attr}` and neither driven nor stored back: "
+                        "every byte of the incomplete packet received before a timed-out / cancelled receive is forgotten", tr)
+        for node, msg in an.dropped[:1]:
+            run.finding("C10.parser", fn, _line_stmt(fn, node.lineno), msg)
+        run.ob("C10.parser", f"{fn.short}:{attr}:never-dropped", not bad and not an.dropped, exits=len(out.ret) + sum(len(m) for m in out.exc.values()))
+    run.floor("C10.parser consumers", n, 2)
+
+
+# ------------------------------------------------------------------------------------------ C10.eof
+def _eof_effects(stmts):
+    """end-of-stream latches (BIO.write_eof / feed_eof, `<x>.…eof… = True`) directly in stmts, not inside a nested except arm"""
+    stack = list(stmts)
+    while stack:
+        n = stack.pop()
+        if isinstance(n, (ast.ExceptHandler, ast.FunctionDef, ast.AsyncFunctionDef, ast.Lambda)):
+            continue
+        if isinstance(n, ast.Call) and isinstance(n.func, ast.Attribute) and n.func.attr in ("write_eof", "feed_eof"):
+            yield n
+        if isinstance(n, ast.Assign) and any(isinstance(t, ast.Attribute) and "eof" in t.attr.lower() for t in n.targets) and isinstance(n.value, ast.Constant) and n.value.value is True:
+            yield n
+        stack.extend(ast.iter_child_nodes(n))
+
+
+def check_eof_latch(eng, run):
+    """a cancelled / timed-out receive must leave the stream usable: no end-of-stream latch is set on an exception path that a
+    cancellation can take (an arm that may catch it, or a finally block)"""
+    n_arms = n_eff = 0
+    toks = ("OSError", "Exception", CANCELLED, "BaseException")
+    for fn in eng.db.all_functions():
+        if isinstance(fn.node, ast.Lambda) or not fn.module.name.startswith(("easynetwork.lowlevel", "easynetwork.clients")):
+            continue
+        for t in own_nodes(fn.node):
+            if not isinstance(t, ast.Try):
+                continue
+            for h in t.handlers:
+                effs = list(_eof_effects(h.body))
+                if not effs:
+                    continue
+                n_arms += 1
+                n_eff += len(effs)
+                m = eng.lattice.match(eng.lattice.handler_classes(fn, h.type), CANCELLED, toks)
+                if m != "no":
+                    run.finding("C10.eof", fn, _line_stmt(fn, effs[0].lineno), f"`{ast.unparse(effs[0])[:60]}` runs in `except {ast.unparse(h.type) if h.type else ''}`, which a cancellation can enter: "
+                                "a cancelled receive marks the stream as ended and everything the peer sends afterwards is lost")
+                run.ob("C10.eof", f"{fn.short}:except {ast.unparse(h.type)[:32] if h.type else ''}", m == "no", effects=len(effs))
+            effs = list(_eof_effects(t.finalbody))
+            if effs:
+                n_arms += 1
+                run.finding("C10.eof", fn, _line_stmt(fn, effs[0].lineno), f"`{ast.unparse(effs[0])[:60]}` runs in a finally block, i.e. also when the receive is cancelled")
+                run.ob("C10.eof", f"{fn.short}:finally", False)
+    run.floor("C10.eof exception arms with an end-of-stream latch", n_arms, 2)
+
+
 def run(eng, run):
     run.not_decided += NOT_DECIDED
     run.assumptions += ["a cancellation or another task can intervene only at a suspension point (single-threaded event loop)",
@@ -313,6 +486,8 @@ def run(eng, run):
     run.floor("C10.hold source sites", total_sources, 14)
     check_lend(eng, run)
     check_ack(eng, run)
+    check_parser(eng, run)
+    check_eof_latch(eng, run)
     sync_fns = [f for f in hold_functions(eng, False) if f.module.name.startswith(("easynetwork.lowlevel.api_sync.endpoints", "easynetwork.clients"))]
     for fn in sync_fns:
         check_sync(eng, run, fn)
@@ -373,4 +548,35 @@ BENIGN = [
             lambda fn: insert_before(fn, stmt_has("chunk: bytes = await transport.recv(bufsize)"), "await transport.backend().coro_yield()"),
             why="a checkpoint before the read: nothing is held yet"),
     Variant("async-receiver-rename-chunk", _AR, lambda fn: rename_local(fn, "chunk", "piece"), why="local renamed"),
+]
+
+_SDC = "lowlevel._stream:StreamDataConsumer.next"
+_BDC = "lowlevel._stream:BufferedStreamDataConsumer.next"
+_IDR = "lowlevel.api_async.transports.tls:_IncomingDataReader.readinto"
+
+
+def _take_parser_at_top(fn):
+    fn.body.insert(0, ast.parse("consumer, self.__consumer = self.__consumer, None").body[0])
+    replace_expr(fn, "(consumer := self.__consumer) is None", "consumer is None")
+    delete_stmt(fn, stmt_is("self.__consumer = None"))
+
+
+MUTANTS += [
+    Variant("parser-taken-before-the-empty-feed-exit", _SDC, _take_parser_at_top, "C10.parser",
+            why="next(None) after a timed-out receive forgets the half-parsed packet (seed C10-4)"),
+    Variant("buffered-parser-reset-before-zero-byte-exit", _BDC,
+            lambda fn: (delete_stmt(fn, stmt_is("self.__consumer = None")), insert_before(fn, stmt_has("nb_updated_bytes += self.__already_written"), "self.__consumer = None")),
+            "C10.parser", why="a zero-byte update drops the parser"),
+    Variant("parser-not-stored-back", _SDC, lambda fn: delete_stmt(fn, stmt_is("self.__consumer = consumer")), "C10.parser"),
+    Variant("cancelled-read-marks-bio-eof", _IDR,
+            lambda fn: replace_stmt(fn, stmt_has("self.transport.recv_into"),
+                                    "try:\n    nbytes = await self.transport.recv_into(buffer := self.buffer_view)\nexcept BaseException:\n    read_bio.write_eof()\n    raise\nif nbytes > 0:\n    return read_bio.write(buffer[:nbytes])"),
+            "C10.eof", why="a cancelled TLS receive ends the read side for good (seed C10-6)"),
+]
+BENIGN += [
+    Variant("oserror-read-marks-bio-eof", _IDR,
+            lambda fn: replace_stmt(fn, stmt_has("self.transport.recv_into"),
+                                    "try:\n    nbytes = await self.transport.recv_into(buffer := self.buffer_view)\nexcept OSError:\n    read_bio.write_eof()\n    raise\nif nbytes > 0:\n    return read_bio.write(buffer[:nbytes])"),
+            why="only a transport error (never a cancellation) latches EOF"),
+    Variant("parser-swap-in-else-arm", _SDC, lambda fn: replace_stmt(fn, stmt_is("self.__consumer = None"), "_unused, self.__consumer = None, None"), why="reset written as a tuple assignment"),
 ]
